@@ -3,6 +3,7 @@ result (GRAD-CUT); every trainable parameter reaches a result (GRAD-REACH)."""
 
 import ast
 
+from ..astutil import const_number
 from ..entries import enumerate_entries, entry_args
 from ..interp import Interp, OBJ, E, AV, T, TUP, all_ann
 from ..model import AnalysisIncomplete, PARAM, norm_text
@@ -190,20 +191,181 @@ def grad_reach_rule(ctx):
     return res
 
 
+# ---------------------------------------------------------------------------------------
+# GRAD-WHERE: torch.where evaluates both branches; a branch that is singular outside the region
+# it is selected in yields 0 * inf = NaN in the backward pass
+# ---------------------------------------------------------------------------------------
+
+SINGULAR_POS = {"log": "its argument must stay > 0", "log2": "its argument must stay > 0", "log10": "its argument must stay > 0", "sqrt": "d/dx sqrt is infinite at 0", "rsqrt": "infinite at 0", "reciprocal": "infinite at 0"}
+SINGULAR_ANY = {"atanh": "infinite at +-1", "acos": "derivative infinite at +-1", "asin": "derivative infinite at +-1", "acosh": "derivative infinite at 1", "log1p": "infinite at -1", "logit": "infinite at 0 and 1", "tan": "poles"}
+
+
+def _where_ops(c):
+    """(condition, a, b) of torch.where(cond, a, b) / a.where(cond, b), else None"""
+    f = c.func
+    last = f.attr if isinstance(f, ast.Attribute) else (f.id if isinstance(f, ast.Name) else "")
+    if last != "where":
+        return None
+    ops = list(c.args)
+    if isinstance(f, ast.Attribute) and not (isinstance(f.value, ast.Name) and f.value.id in ("torch", "np", "numpy")):
+        if len(ops) == 2:
+            return ops[0], f.value, ops[1]
+        return None
+    if isinstance(f, ast.Attribute) and isinstance(f.value, ast.Name) and f.value.id in ("np", "numpy"):
+        return None
+    return tuple(ops) if len(ops) == 3 else None
+
+
+def _reaching_defs(fn, name, before_line):
+    """values assigned to the local `name` by plain assignments that precede the line"""
+    out = []
+    for n in ast.walk(fn):
+        if isinstance(n, ast.Assign) and n.lineno < before_line:
+            for t in n.targets:
+                if isinstance(t, ast.Name) and t.id == name:
+                    out.append(n)
+    if not out:
+        return []
+    last = max(out, key=lambda a: a.lineno)
+    # the closest preceding assignment reaches; earlier ones may as well when it sits in a branch
+    par = getattr(last, "_parent", None)
+    if isinstance(par, (ast.FunctionDef, ast.AsyncFunctionDef)):
+        return [last]
+    return out
+
+
+def _depends_on_args(e, fn, line, depth=0, seen=None):
+    """does the expression mention a tensor argument of the function (directly or through locals)?"""
+    params = {a.arg for a in fn.args.posonlyargs + fn.args.args + fn.args.kwonlyargs} - {"self", "cls"}
+    seen = seen if seen is not None else set()
+    for n in ast.walk(e):
+        if isinstance(n, ast.Name) and isinstance(n.ctx, ast.Load):
+            if n.id in params:
+                return True
+            if n.id in seen or depth > 8:
+                continue
+            seen.add(n.id)
+            for d in _reaching_defs(fn, n.id, line):
+                if _depends_on_args(d.value, fn, d.lineno, depth + 1, seen):
+                    return True
+    return False
+
+
+def _inline_locals(e, fn, line, depth=0):
+    """copy of `e` with single-definition locals replaced by their defining expressions"""
+    import copy
+
+    class Sub(ast.NodeTransformer):
+        def visit_Name(self, n):
+            if isinstance(n.ctx, ast.Load) and depth < 6:
+                defs = _reaching_defs(fn, n.id, line)
+                if len(defs) == 1 and not any(isinstance(x, ast.Name) and x.id == n.id for x in ast.walk(defs[0].value)):
+                    return _inline_locals(defs[0].value, fn, defs[0].lineno, depth + 1)
+            return n
+
+    return Sub().visit(copy.deepcopy(e))
+
+
+def where_sites(p):
+    out = []
+    for fi in p.all_functions():
+        if not fi.module.name.startswith("nflows.") or ".tests" in fi.module.name or fi.module.relpath.startswith("tests"):
+            continue
+        for n in ast.walk(fi.node):
+            if isinstance(n, ast.Call):
+                ops = _where_ops(n)
+                if ops is not None:
+                    owner = n
+                    while owner is not None and not isinstance(owner, (ast.FunctionDef, ast.AsyncFunctionDef)):
+                        owner = getattr(owner, "_parent", None)
+                    if owner is fi.node:
+                        out.append((fi, n, ops))
+    return out
+
+
+def where_findings(p, res=None):
+    from ..sign import sign_of, POS
+
+    found = []
+    for fi, call, (cond, a, b) in where_sites(p):
+        bad = []
+        for which, br in (("first", a), ("second", b)):
+            if not _depends_on_args(br, fi.node, call.lineno + 1):
+                continue
+            e = _inline_locals(br, fi.node, call.lineno + 1)
+            for n in ast.walk(e):
+                arg, why = None, None
+                if isinstance(n, ast.Call):
+                    f = n.func
+                    last = f.attr if isinstance(f, ast.Attribute) else (f.id if isinstance(f, ast.Name) else "")
+                    host = isinstance(f, ast.Attribute) and isinstance(f.value, ast.Name) and f.value.id in ("np", "numpy", "math")
+                    if host or (last not in SINGULAR_POS and last not in SINGULAR_ANY):
+                        continue
+                    is_mod = isinstance(f, ast.Attribute) and isinstance(f.value, ast.Name) and f.value.id in ("torch", "F")
+                    arg = (n.args[0] if n.args else None) if is_mod or isinstance(f, ast.Name) else f.value
+                    if arg is None:
+                        continue
+                    if last in SINGULAR_POS and sign_of(arg) == POS:
+                        continue
+                    why = "%s(%s): %s" % (last, norm_text(arg)[:50], SINGULAR_POS.get(last) or SINGULAR_ANY[last])
+                elif isinstance(n, ast.BinOp) and isinstance(n.op, ast.Div):
+                    if const_number(n.right) is not None or sign_of(n.right) == POS:
+                        continue
+                    arg = n.right
+                    why = "division by `%s`, which is not bounded away from 0" % norm_text(arg)[:50]
+                elif isinstance(n, ast.BinOp) and isinstance(n.op, ast.Pow):
+                    k = const_number(n.right)
+                    if k is not None and float(k).is_integer() and k >= 0:
+                        continue
+                    if sign_of(n.left) == POS:
+                        continue
+                    arg = n.left
+                    why = "`%s` raised to a negative / fractional / non-constant power" % norm_text(arg)[:50]
+                if why is None:
+                    continue
+                # a singular operation of something that does not depend on the rows is singular
+                # (or not) for every element alike: not a matter of the region
+                if not any(isinstance(x, ast.Name) for x in ast.walk(arg)) or not _depends_on_args(arg, fi.node, 0):
+                    pn = {a.arg for a in fi.node.args.posonlyargs + fi.node.args.args + fi.node.args.kwonlyargs} - {"self", "cls"}
+                    if not any(isinstance(x, ast.Name) and x.id in pn for x in ast.walk(arg)):
+                        continue
+                bad.append((which, why))
+        if bad:
+            which, why = bad[0]
+            found.append(Finding("GRAD-WHERE", fi.module, fi.qualname, _stmt(call), "torch.where evaluates both branches for every element and back-propagates a zero cotangent into the unselected one; the %s branch contains %s -- at an element outside `%s` where that operation is singular the backward pass computes 0 * inf = NaN, for the inputs and for every upstream parameter (the forward values are unaffected)" % (which, why, norm_text(cond)[:50])))
+        elif res is not None:
+            res.ok("%s:%s `%s`: neither branch is singular off its region" % (fi.module.relpath, fi.qualname, norm_text(call)[:60]))
+    return found
+
+
+def grad_where_rule(ctx):
+    p = ctx.p
+    res = RuleResult("GRAD-WHERE", "no branch of a torch.where is singular (log / division / root / negative power of a row-dependent value not proven positive) outside the region it is selected in")
+    for f in where_findings(p, res):
+        res.fail(f)
+    n = len(where_sites(p))
+    res.notes.append("%d torch.where sites in nflows" % n)
+    if n == 0:
+        res.ok("no torch.where in nflows: region-wise definitions use masked gather / scatter, whose backward touches only the selected elements (T-OPS)", nontrivial=False)
+    return res
+
+
 def _late_inplace(ctx):
     return grad_inplace_rule(ctx)
 
 
 register(
     "C16",
-    [grad_cut_rule, grad_reach_rule, _late_inplace],
+    [grad_cut_rule, grad_reach_rule, _late_inplace, grad_where_rule],
     "Forward may-dependence (taint) analysis over every differentiable entry point (forward/inverse of every Transform per "
     "concrete receiver class, the Linear accessors, log_prob/_log_prob/mean of every Distribution, Flow.sample_and_log_prob/"
     "_sample/transform_to_noise, forward/log_prob of the remaining nn.Modules, the eight spline functions). Gradient-severing "
     "constructs (.detach(), .data, .item(), .numpy(), .tolist(), float()/int() of a tensor, torch.tensor(tensor), anything "
     "computed under torch.no_grad()) label their result CUT@site; comparisons, floor/long/argsort/sign and index positions "
     "clear the label (honestly piecewise-constant). Rule GRAD-CUT: no returned tensor carries a CUT label. Rule GRAD-REACH: "
-    "every nn.Parameter of a concrete class may-flows to some returned result of that class. Decides the structural way "
+    "every nn.Parameter of a concrete class may-flows to some returned result of that class. Rule GRAD-WHERE: no branch of a "
+    "torch.where applies log / sqrt / a division / a negative or fractional power to a row-dependent value that the sign lattice "
+    "cannot prove positive (0 * inf = NaN in backward at elements outside the branch's region). Decides the structural way "
     "gradients are lost silently; gradient values (finite differences) and the third-party integrator's custom backward are "
     "out of reach.",
     [A_NET, A_UMNN, T_OPS, "autograd computes correct derivatives for the torch operations themselves"],
